@@ -5,6 +5,7 @@ import SimuVerif.Model.PipelineR
 import SimuVerif.Model.TissueR
 import SimuVerif.Model.TissueP
 import SimuVerif.Model.TissueD
+import SimuVerif.Model.TissueD2
 /-
   Model driver of C14 (assembled iteration of a single free cell): runs `Pipeline.cellIteration` at `Float`, i.e. the
   very definition the theorems of Properties/C14Pipeline.lean are about, from an initial state taken from the first
@@ -703,6 +704,114 @@ def simulate (out : IO.FS.Stream) (K : ConstsTR Float) (n every : Nat) (s0 : Sta
 
 end TissueDDrv
 
+/-! ### tissue with remeshing, division round with the daughters COMPUTED by `divideCellM` (recorded axis and interface triangulation), removal -/
+namespace TissueD2Drv
+open Simu.Remesh Simu.TissueR Simu.TissueP Simu.TissueD Simu.TissueD2 TissueDrv RemeshDrv TissueRDrv TissuePDrv
+
+structure DIRec where
+  iter : Nat
+  ins : List (DivIn Float)
+
+def pRecD : P (RecD Float) := do
+  let np ← pNat
+  let pts ← pMany np (do let x ← pF; let y ← pF; pure (x, y))
+  let nt ← pNat
+  let tris ← pMany nt (do let a ← pNat; let b ← pNat; let c ← pNat; pure (a, b, c))
+  pure ⟨pts.toList, tris.toList⟩
+
+def pDivIn : P (DivIn Float) := do
+  let ax ← pV
+  let h ← pNat
+  if h == 0 then pure ⟨ax, none⟩ else do
+    let d ← pRecD
+    pure ⟨ax, some d⟩
+
+def pDI : P DIRec := do
+  expect "DI"
+  let it ← pNat; let k ← pNat; let ins ← pMany k pDivIn
+  pure ⟨it, ins.toList⟩
+
+def pTissueD2 : P (ConstsTR Float × Nat × Nat × StateTP Float × List DIRec) := do
+  let n ← pNat; let every ← pNat; let nc ← pNat; let sw ← pNat
+  if every == 0 then failure
+  let dt ← pF; let damping ← pF; let lmin ← pF; let cutAdh ← pF; let cutRep ← pF; let sp ← pF
+  let it ← pNat; let fileNo ← pNat; let maxId ← pNat; let time ← pF
+  let cells ← pMany nc (do let id ← pNat; let lid ← pNat; let c ← pCellTR; pure ((⟨id, lid⟩ : Ident), c))
+  expect "DIN"
+  let k ← pNat
+  let recs ← pMany k pDI
+  let i ← get
+  if i ≠ (← read).size then failure
+  let K : Tissue.Consts Float :=
+    { dt := dt, damping := damping, lmin := lmin, cutAdh := cutAdh, cutRep := cutRep,
+      dotAdh := cosDeg Gen.dotAdhDeg1, dotRep := cosDeg Gen.dotRepDeg1, big := dblMax, inf := dblInf, delta := Gen.gridDeltaFloat }
+  pure ({ base := K, samplingPeriod := sp, swapOn := sw != 0, maxIter := 1000000 }, n, every,
+        { base := { iter := it, time := time, fileNo := Int.ofNat fileNo, cells := (cells.toList.map (·.2)), defined := true },
+          idents := cells.toList.map (·.1), maxId := maxId }, recs.toList)
+
+def simulate (out : IO.FS.Stream) (K : ConstsTR Float) (n every : Nat) (s0 : StateTP Float) (recs : List DIRec) : IO Unit := do
+  let fn := Fn.float
+  let fx := FX.float
+  let P := Tissue.cparams K.base
+  out.putStrLn s!"H setup {if 0.0 ≤ K.base.delta && 0.0 < P.padding && 0.0 < P.voxel then 1 else 0}"
+  out.putStrLn s!"H endPhases {if endPhases == [Pop.Phase.stats, Pop.Phase.remove, Pop.Phase.renumber] then 1 else 0}"
+  out.putStrLn s!"H stageOrder {if Gen.Division.stageOrder == ["rebase", "centroid", "axis", "addpts", "divfaces", "coarse", "mapxy", "tri", "mapback", "daughters", "refine1", "refine2", "target1", "target2", "rebase1", "rebase2"] then 1 else 0}"
+  let mut s := s0
+  let mut stop := false
+  for k in [0:n+1] do
+    if stop then break
+    if k % every == 0 || k == n then
+      for l in showStateTP s do out.putStrLn l
+    if s.base.cells.isEmpty then break
+    if k < n then
+      let sv := saveMeshT fn K s.base
+      match sv with
+      | .error e =>
+        out.putStrLn s!"X {e.name}"
+        stop := true
+      | .ok b1 =>
+        let rebased := b1.fileNo != s.base.fileNo
+        let nready := if dividesNow b1.iter then (b1.cells.filter readyD).length else 0
+        let ins : List (DivIn Float) := ((recs.find? fun r => r.iter == b1.iter).map (·.ins)).getD []
+        -- `tissueIterationD2 s ins` is, by definition, `tissueIterationD s (eventsD2 fn K b1 ins)`
+        let ev := eventsD2 fn K b1 ins
+        let insOk := insOkD2 fn K b1 ins
+        -- the centroid the model cuts through, per ready cell (for the harness' `DA` line)
+        if dividesNow b1.iter then
+          for c in b1.cells.filter readyD do
+            match rebaseCell c with
+            | .ok c' => out.putStrLn s!"DC {b1.iter} {showV (centroidM c')} {b01 (motherOk c')}"
+            | .error _ => out.putStrLn s!"DC {b1.iter} - - - 0"
+        let s2 := divisionRoundD { s with base := b1 } ev
+        if !ins.isEmpty then
+          out.putStrLn s!"DS {b1.iter}"
+          for l in (showStateTP s2).drop 1 do out.putStrLn l
+          out.putStrLn "DE"
+        let live := s2.base.cells.all fun c => refineLiveCell fn K c && replayOk fn K c
+        let ms := refineStageT fn K s2.base
+        let bi : Option (List (CellTR Float) × Bool) :=
+          match ms with
+          | .ok b3 => some (beforeIntegrationR fn fx K.base b3.cells)
+          | .error _ => none
+        let ok := insOk && stepOkFromD s ev sv (fun _ => live) (fun _ => ms) (fun _ => bi.getD ([], false))
+        let logs := s2.base.cells.map fun c => PipelineR.refineLog fn (kR K c.k) (PipelineR.faceTypes (kR K c.k) c.mesh)
+        let ns := (logs.map fun l => (l.filter (fun e => e.1)).length).foldl (· + ·) 0
+        let nm := (logs.map fun l => (l.filter (fun e => !e.1)).length).foldl (· + ·) 0
+        match ms, bi with
+        | .ok b3, some r =>
+          let b := physFrom K b3 r
+          let rm := removedPositions b.cells
+          out.putStrLn s!"O {s.base.iter} {b01 ok} {nready} {ev.length} {rm.length} {ns} {nm} {b01 rebased} {b01 insOk} {ins.length}"
+          s := removalP { s2 with base := b }
+        | .error e, _ =>
+          out.putStrLn s!"O {s.base.iter} {b01 ok} {nready} {ev.length} 0 {ns} {nm} {b01 rebased} {b01 insOk} {ins.length}"
+          out.putStrLn s!"X {e.name}"
+          stop := true
+        | _, _ => stop := true
+  out.putStrLn "END"
+
+end TissueD2Drv
+
 partial def loop (h : IO.FS.Stream) (out : IO.FS.Stream) : IO Unit := do
   let line ← h.getLine
   if line.isEmpty then return ()
@@ -714,6 +823,10 @@ partial def loop (h : IO.FS.Stream) (out : IO.FS.Stream) : IO Unit := do
   | "runr" :: args =>
     match (RemeshDrv.pRunR.run 0).run args.toArray with
     | some ((K, n, every, s), _) => RemeshDrv.simulate out K n every s
+    | none => out.putStrLn "bad-op"
+  | "tissued2" :: args =>
+    match (TissueD2Drv.pTissueD2.run 0).run args.toArray with
+    | some ((K, n, every, s, recs), _) => TissueD2Drv.simulate out K n every s recs
     | none => out.putStrLn "bad-op"
   | "tissued" :: args =>
     match (TissueDDrv.pTissueD.run 0).run args.toArray with
